@@ -3,7 +3,9 @@
    directory.  Parts: NumCleanupNames.v (names, the listing), NumCleanupStep.v (one cleanup), NumCleanupRun.v
    (invariant, rotation, run; theorem numbers_cleanup_stream).  Here: the properties (a)-(d) spelled out, the version
    for a size criterion (the view is a function of the operations), examples, and the counterexamples that show that
-   the side conditions (suffix not "gz" / not ending with ".gz"; indices below 100000) are necessary. *)
+   the side condition (suffix not "gz" / not ending with ".gz") is necessary.  Since the repair of the listing order
+   (the sort key compares the number behind the last "_r" - or, in a name without basename and discriminant, behind the
+   leading "r" - numerically) there is no bound on the indices. *)
 Require Import FL.Base.Bytes FL.Base.BytesFacts FL.Base.PathName FL.Fs.Fs FL.Fs.FsFacts FL.Time.Civil FL.Time.TsFormat
   FL.Names.FileSpec FL.Names.NamesFacts FL.Names.SortFacts FL.Names.FamilyFacts FL.Flw.Model FL.Flw.ModelFacts FL.Flw.NumFs
   FL.Flw.NumInv FL.Flw.Run FL.Flw.RunFacts FL.Flw.NumRun FL.Oracles.O_Flw FL.Flw.NumTheorems FL.Flw.NumListing FL.Flw.CleanupFacts
@@ -42,7 +44,7 @@ Definition data_at (f : fs) (x : bytes) : bytes := match file_of f x with Some f
    closed, cur: the reader's view that the run would leave without cleanup. *)
 Theorem numbers_cleanup_properties c crit k n m t0 off ops closed cur :
   numkcfg c crit k -> klim k = Some (n, m) -> Forall basic_op ops ->
-  sfx_ok (c_spec c) -> (N.of_nat (length closed) <= 100000)%N ->
+  sfx_ok (c_spec c) ->
   a_run None ops (snd (run (fst (step (sys0 t0 off) (OStart c))) ops)) = Some (closed, cur) ->
   let f := wfs (s_w (fst (run (sys0 t0 off) (OStart c :: ops ++ [OStop])))) in
   let L := length closed in let lo := L - (n + m) in let mid := L - n in
@@ -68,9 +70,9 @@ Theorem numbers_cleanup_properties c crit k n m t0 off ops closed cur :
   (* (d) the current file is plain and holds what it would hold without cleanup *)
   /\ (exists fl, file_of f (cname c) = Some fl /\ fdata fl = cur /\ fgz fl = 0%N /\ fdir fl = false).
 Proof.
-  intros Hcfg Hk Hb Hsfx HL Ea f L lo mid.
+  intros Hcfg Hk Hb Hsfx Ea f L lo mid.
   pose proof (numbers_cleanup_stream c crit k t0 off ops Hcfg Hb) as T. cbv zeta in T. rewrite Ea in T. fold f in T.
-  destruct T as [Fl V]. { unfold kside. rewrite Hk. split; assumption. }
+  destruct T as [Fl V]. { unfold kside. rewrite Hk. exact Hsfx. }
   cbn [flat] in Fl. unfold k_lo, k_mid in V. rewrite Hk in V. fold L lo mid in V.
   pose proof (kview_names _ _ _ _ _ _ V) as Names. fold L in Names.
   destruct V as [KD (jc & Lc & [Gc Dc] & Cc)]. pose proof KD as [Hle Hnd Hp Ha Hon]. fold L in Hle, Hp, Hon.
@@ -82,7 +84,7 @@ Proof.
     - rewrite entry_plain by exact H. destruct (Hp i ltac:(lia)) as (j & -> & _ & Cj). exact Cj.
     - rewrite entry_arch by exact H. destruct (Ha i ltac:(lia)) as (j & -> & Dj & _). exact Dj. }
   split; [exact Fl|]. split; [exact Names|]. split; [exact Hnd|]. split; [unfold mid; lia|]. split; [unfold lo, mid; lia|].
-  split. { intros off'. apply list_log_gz_numbers; [exact Hsfx | exact HL | apply kdir_shape; exact KD]. }
+  split. { intros off'. apply list_log_gz_numbers; [exact Hsfx | apply kdir_shape; exact KD]. }
   split.
   { intros i Hi. split.
     - apply NoName. intros [X|[(j & Hj & X)|(j & Hj & X)]].
@@ -318,7 +320,7 @@ Proof.
   split; [exact Es|].
   pose proof (numbers_cleanup_partition c (KLogGz 1 1) 3 0 0 ex_ops (ex_numkcfg _ _) ex_ops_basic) as T.
   cbv zeta in T. rewrite Es in T. fold f in T.
-  destruct T as [_ V]. { split; [exact ex_sfx_ok | vm_compute; discriminate]. }
+  destruct T as [_ V]. { exact ex_sfx_ok. }
   change (k_lo (KLogGz 1 1) (length closed)) with 3 in V. change (k_mid (KLogGz 1 1) (length closed)) with 4 in V.
   split; [exact V|]. destruct V as [KD _]. pose proof KD as [_ _ _ Ha _].
   split. { destruct (Ha 3 ltac:(lia)) as (j & Lj & Dj & Gj & Fj). exists (inode f j). unfold file_of. rewrite Lj. auto. }
@@ -353,19 +355,60 @@ Example sfx_log_gz_counterexample :
               (bs "a_rCURRENT.log.gz"%string, 0%N, bs "abcd"%string ++ [5%N])] None [].
 Proof. split; [vm_compute; discriminate | vm_compute; reflexivity]. Qed.
 
-(* 3. Index 100000: the listing is sorted by name and "r100000" sorts before "r99999", so the file r99999 is taken for the
-      newest one: the cleanup with KLog 1 removes r100000 - the NEWEST closed file - and keeps the older one. *)
+(* 3. Index 100000, REPAIRED (this was the counterexample index_100000_counterexample: the listing was sorted by name,
+      "r100000" sorted before "r99999", and the cleanup with KLog 1 removed r100000 - the NEWEST closed file).  The sort key
+      now compares the number behind the last "_r" numerically: r100000 is listed first, the cleanup keeps it and removes
+      the older r99999. *)
 Definition big_c : config := ex_cfg (KLog 1) log_sfx.
 Definition big_fs : fs :=
   mkfile (mkfile (mkfile empty_fs (rname big_c (N.to_nat 99999)) (bs "older"%string) 0 10)
                  (rname big_c (N.to_nat 100000)) (bs "newest"%string) 0 20)
          (cname big_c) (bs "cur"%string) 0 30.
-Example index_100000_counterexample :
+Example index_100000_repaired :
   rname big_c (N.to_nat 99999) = bs "a_r99999.log"%string /\ rname big_c (N.to_nat 100000) = bs "a_r100000.log"%string
-  /\ list_log_gz 0 (c_spec big_c) (fixed0 big_c) big_fs IFNum = Some [bs "a_r99999.log"%string; bs "a_r100000.log"%string]
+  /\ list_log_gz 0 (c_spec big_c) (fixed0 big_c) big_fs IFNum = Some [bs "a_r100000.log"%string; bs "a_r99999.log"%string]
   /\ let r := cleanup_impl big_c (world_of big_fs) (KLog 1) IFNum false in
      fst r = Ok tt
      /\ map (data_at (wfs (snd r))) [bs "a_r99999.log"%string; bs "a_r100000.log"%string; bs "a_rCURRENT.log"%string]
-        = [bs "older"%string; []; bs "cur"%string]
-     /\ lookup (wfs (snd r)) (bs "a_r100000.log"%string) = None.
+        = [[]; bs "newest"%string; bs "cur"%string]
+     /\ lookup (wfs (snd r)) (bs "a_r99999.log"%string) = None.
 Proof. vm_compute. repeat split; reflexivity. Qed.
+
+(* the same from the theorem of NumCleanupNames.v, which has no hypothesis on the indices: three closed files up to index
+   100001, two of them archives *)
+Example index_100000_listing_thm f off :
+  dir_shape big_c f (N.to_nat 99999) (N.to_nat 100001) (N.to_nat 100002) ->
+  list_log_gz off (c_spec big_c) (fixed0 big_c) f IFNum = Some (listing big_c (N.to_nat 99999) (N.to_nat 100001) (N.to_nat 100002)).
+Proof. intros DS. apply list_log_gz_numbers; [vm_compute; reflexivity | exact DS]. Qed.
+
+(* 4. AN EMPTY FIXED NAME PART (basename suppressed, no discriminant), REPAIRED (this was the counterexample
+      index_100000_counterexample_empty_fixed to the first version of the repair, which split the name at "_r" only): the
+      names are r<digits>.<suffix> without "_"; the sort key reads the number behind the leading "r": r100000 is listed
+      first, the cleanup with KLog 1 keeps it and removes the older r99999. *)
+Definition nofix_c : config :=
+  {| c_spec := {| fbase := []; fdisc := None; fts := false; fsfx := log_sfx |};
+     c_append := false; c_cap := None; c_rot := Some (CSize 3, NNumbers, KLog 1); c_utc := false; c_symlink := false;
+     c_bg := false; c_async := false; c_start := None |}.
+Definition nofix_fs : fs :=
+  mkfile (mkfile (mkfile empty_fs (rname nofix_c (N.to_nat 99999)) (bs "older"%string) 0 10)
+                 (rname nofix_c (N.to_nat 100000)) (bs "newest"%string) 0 20)
+         (cname nofix_c) (bs "cur"%string) 0 30.
+Example index_100000_empty_fixed_repaired :
+  numkcfg nofix_c (CSize 3) (KLog 1) /\ sfx_ok (c_spec nofix_c) /\ fixed0 nofix_c = []
+  /\ rname nofix_c (N.to_nat 99999) = bs "r99999.log"%string /\ rname nofix_c (N.to_nat 100000) = bs "r100000.log"%string
+  /\ list_log_gz 0 (c_spec nofix_c) (fixed0 nofix_c) nofix_fs IFNum = Some [bs "r100000.log"%string; bs "r99999.log"%string]
+  /\ let r := cleanup_impl nofix_c (world_of nofix_fs) (KLog 1) IFNum false in
+     fst r = Ok tt
+     /\ map (data_at (wfs (snd r))) [bs "r99999.log"%string; bs "r100000.log"%string; bs "rCURRENT.log"%string]
+        = [[]; bs "newest"%string; bs "cur"%string]
+     /\ lookup (wfs (snd r)) (bs "r99999.log"%string) = None.
+Proof.
+  split; [repeat split|]. split; [vm_compute; reflexivity|]. split; [reflexivity|].
+  vm_compute. repeat split; reflexivity.
+Qed.
+
+(* the same from the theorem: any directory of that shape is listed newest first *)
+Example index_100000_empty_fixed_listing_thm f off :
+  dir_shape nofix_c f (N.to_nat 99999) (N.to_nat 100001) (N.to_nat 100002) ->
+  list_log_gz off (c_spec nofix_c) (fixed0 nofix_c) f IFNum = Some (listing nofix_c (N.to_nat 99999) (N.to_nat 100001) (N.to_nat 100002)).
+Proof. intros DS. apply list_log_gz_numbers; [vm_compute; reflexivity | exact DS]. Qed.
